@@ -475,6 +475,34 @@ def admission(repo, res, canon, logic, f, src_cls, dst_cls):
             asked = [l.atom[7:].split('.has_capacity_for')[0] for l in lits]
             ok, why = False, ('the transfer loop is entered after asking %s for room, not the destination tier %s' % (
                 asked or 'nobody', dst_cls))
+    # ... room for THE observation that is moved: the size asked about is that of the observation
+    # handed to the per-step receive (or of the element of the source's stored list that the
+    # take-out pops)
+    from ..norm import ProvCanon
+    pc = ProvCanon(repo)
+    plogic = Logic(pc)
+    recv = [x for x in walk_no_nested(f.node) if isinstance(x, ast.Call) and call_name(x) == 'receive_observation']
+    if ok and n and recv and recv[0].args:
+        moved = pc.p(recv[0].args[0], fr)
+        wants = {'%s.total_data_size' % moved}
+        take = repo.func('%s.observation_for_transfer' % src_cls) if repo.has_func('%s.observation_for_transfer' % src_cls) else None
+        if take is not None:
+            pops = [x for x in walk_no_nested(take.node) if isinstance(x, ast.Call) and isinstance(x.func, ast.Attribute)
+                    and x.func.attr in ('pop', 'popleft')]
+            if len(pops) == 1:
+                idx_ = '(-1)' if (pops[0].func.attr == 'pop' and not pops[0].args) else (
+                    '0' if pops[0].func.attr == 'popleft' else pc.p(pops[0].args[0], Frame(take)))
+                wants.add("%s.observations['stored'][%s].total_data_size" % (src_cls, idx_))
+        for p in cached_paths(f):
+            idx = [i for i, e in enumerate(p.events) if e.kind == 'loop' and e.node is lp]
+            if not idx:
+                continue
+            must = path_must(plogic, p, idx[0], depth=0)
+            pre = 'truthy(%s.has_capacity_for(' % dst_cls
+            args_ = [l.atom[len(pre):-2] for l in must if l.pol and l.atom.startswith(pre)]
+            if args_ and not any(a_ in wants for a_ in args_):
+                ok, why = False, ('the destination is asked whether it has room for %s, which is not the size of the observation '
+                                  'that is moved (%s)' % (short(args_[0], 70), short(moved, 50)))
     (res.ok if ok and n else res.bad)('C18.V6', f, lp, '%s: the move proceeds only if the destination (%s) has room' % (f.name, dst_cls),
                                       'ok' if ok and n else why + ': a move into a full tier is accepted (free space goes negative) '
                                       'or a legal move is refused')
